@@ -65,7 +65,11 @@ class AbstractAssignmentPrinter:
             self.output_file = open(self.output_file_name, "w")
 
     def __del__(self):
-        self.output_file.close()
+        self.close()
+
+    def close(self):
+        if not self.output_file.closed:
+            self.output_file.close()
 
     def add_read_info(self, read_assignment):
         raise NotImplementedError()
@@ -87,12 +91,19 @@ class ReadAssignmentCompositePrinter:
         for p in self.printers:
             p.flush()
 
+    def close(self):
+        for p in self.printers:
+            p.close()
+
 
 class VoidPrinter:
     def add_read_info(self, _):
         pass
 
     def flush(self):
+        pass
+
+    def close(self):
         pass
 
 
@@ -132,8 +143,14 @@ class TmpFileAssignmentPrinter(AbstractAssignmentPrinter):
         self.dumper = open(self.output_file_name, "wb")
 
     def __del__(self):
-        write_short_int(SHORT_TERMINATION_INT, self.dumper)
-        self.dumper.close()
+        self.close()
+
+    # writes the stream terminator; must be called before the file is declared complete
+    def close(self):
+        if not self.dumper.closed:
+            write_short_int(SHORT_TERMINATION_INT, self.dumper)
+            self.dumper.close()
+        AbstractAssignmentPrinter.close(self)
 
     def add_gene_info(self, gene_info):
         write_short_int(self.GENE_INFO, self.dumper)
@@ -473,9 +490,6 @@ class SqantiTSVPrinter(AbstractAssignmentPrinter):
                       within_polya_site, polyA_motif, polyA_dist, polyA_motif_found, ORF_seq, ratio_TSS]
         l = "\t".join([str(x) for x in value_list])
         self.output_file.write(l + "\n")
-
-    def __del__(self):
-        self.output_file.close()
 
     def flush(self):
         self.output_file.flush()
